@@ -266,6 +266,14 @@ def corpus():
           mkrow(o(datetime.date(2022, 3, 5)), "Sell", None, sh=D(50), aps=D(7), com=None)]
     c.append((ls, o(datetime.date(2021, 12, 10)), False))
     c.append((ls, o(datetime.date(2021, 12, 10)), True))
+    # a kept purchase in USD whose commission was charged in CAD (the only rows naming a commission currency
+    # name the default one): the commission must still be CAD when the summary is read back
+    cc = [mkrow(o(datetime.date(2022, 1, 10)), "Buy", None, sh=D(100), aps=D(10), com=D(999, 2), cur="USD", rate=D(125, 2), ccur="CAD"),
+          mkrow(o(datetime.date(2022, 3, 1)), "Buy", None, sh=D(50), aps=D(8), com=D(999, 2), cur="USD", rate=D(13, 1), ccur="CAD"),
+          mkrow(o(datetime.date(2022, 3, 15)), "Sell", None, sh=D(20), aps=D(5), com=D(0), cur="USD", rate=D(13, 1)),
+          mkrow(o(datetime.date(2022, 6, 15)), "Sell", None, sh=D(30), aps=D(12), com=D(0), cur="USD", rate=D(13, 1))]
+    c.append((cc, o(datetime.date(2022, 3, 10)), False))
+    c.append((cc, o(datetime.date(2022, 3, 10)), True))
     return c
 
 
